@@ -24,7 +24,9 @@ func (ial *IndentAwareLexer) NextToken() antlr.Token {
 	}
 	if ial.GetInputStream().Size() == 0 {
 		ial.hitEOF = true
-		return antlr.NewCommonToken(nil, antlr.TokenEOF, antlr.TokenDefaultChannel, -1, -1)
+		token := antlr.NewCommonToken(ial.GetTokenSourceCharStreamPair(), antlr.TokenEOF, antlr.TokenDefaultChannel, -1, -1)
+		token.SetText("<EOF>")
+		return token
 	}
 
 	ial.checkNextToken()
@@ -108,7 +110,7 @@ func (ial *IndentAwareLexer) getLengthOfNewlineToken(currentToken antlr.Token) i
 	}
 
 	if sawSpaces && sawTabs {
-		panic("Indentation contains tabs and spaces")
+		ial.GetErrorListenerDispatch().SyntaxError(ial, nil, currentToken.GetLine()+1, 0, "indentation contains tabs and spaces", nil)
 	}
 
 	return length
